@@ -73,5 +73,42 @@ c_jweencio(void)
     json_decref(jwk);
 }
 
-static const cmd_t cmds_stream[] = { { "jwssigio", c_jwssigio }, { "jweencio", c_jweencio }, { NULL, NULL } };
+/* jwedecchain <jwe> <jwk> <chunk sizes|-> <b64|faildone>: streaming decryption whose OUTPUT goes into a further stage --
+ *   b64:      base64url encoder -> malloc sink     -> <T|F> <hex of what arrived>   (the encoder's tail is flushed in done())
+ *   faildone: a sink that accepts everything but whose done() fails -> <T|F>        (the head must report the failure) */
+typedef struct { jose_io_t io; } fd_t;
+static bool fd_feed(jose_io_t *io, const void *in, size_t len) { return true; }
+static bool fd_done(jose_io_t *io) { return false; }
+static void fd_free(jose_io_t *io) { }
+
+static void
+c_jwedecchain(void)
+{
+    json_t *jwe = jarg(F[1]);
+    json_t *jwk = jarg(F[2]);
+    void *buf = NULL;
+    size_t len = 0;
+    fd_t fd = { { .refs = 1, .feed = fd_feed, .done = fd_done, .free = fd_free } };
+    bool b64 = strcmp(F[4], "b64") == 0;
+    jose_io_t *sink = b64 ? jose_io_malloc(NULL, &buf, &len) : NULL;
+    jose_io_t *enc = b64 && sink ? jose_b64_enc_io(sink) : NULL;
+    jose_io_t *d = jose_jwe_dec_io(NULL, jwe, NULL, jwk, b64 ? enc : &fd.io);
+    jose_io_t *io = d ? jose_b64_dec_io(d) : NULL;
+    const char *ct = json_string_value(json_object_get(jwe, "ciphertext"));
+    if (!io || !ct) {
+        fputs("N", stdout);
+    } else {
+        bool ok = feed_chunks(io, F[3], (const uint8_t *) ct, strlen(ct));
+        fputs(ok ? "T " : "F ", stdout);
+        if (b64 && ok) puthex(buf, len); else fputs("x", stdout);
+    }
+    jose_io_decref(io);
+    jose_io_decref(d);
+    jose_io_decref(enc);
+    jose_io_decref(sink);
+    json_decref(jwe);
+    json_decref(jwk);
+}
+
+static const cmd_t cmds_stream[] = { { "jwedecchain", c_jwedecchain }, { "jwssigio", c_jwssigio }, { "jweencio", c_jweencio }, { NULL, NULL } };
 REGISTER(cmds_stream)
